@@ -89,6 +89,20 @@ def perturbations(rng, p: Pep):
         if lab.startswith('res') and not lst:
             del q.res[int(lab[3:])]
         yield 'drop', q
+    # one copy of a repeated modification becomes another modification that is already present at that position:
+    # same length, same set of distinct modifications, different multiset
+    for lab, lst in lists:
+        pairs_ = [x.pair() for x in lst]
+        rep = [j for j, pr in enumerate(pairs_) if pairs_.count(pr) >= 2]
+        oth = [j for j, pr in enumerate(pairs_) if pairs_.count(pr) < 2 or pr != pairs_[rep[0]]] if rep else []
+        oth = [j for j in oth if pairs_[j] != pairs_[rep[0]]] if rep else []
+        if rep and oth:
+            q = p.copy()
+            l2 = dict(mod_lists(q))[lab]
+            src = l2[rng.choice(oth)]
+            l2[rep[0]] = M(src.text, src.mult, kind=src.kind)
+            yield 'value-to-sibling', q
+            break
     if p.res and len(p.seq) >= 2:
         i = rng.choice(sorted(p.res))
         cands = [k for k in range(len(p.seq)) if k != i and
@@ -220,6 +234,40 @@ def run_case(ctx, st, pt, p: Pep):
     ctx.decided()
     if deep(a) != before:
         ctx.violation('editing-the-copy-changed-the-source', {'canonical': s})
+    # 3b. an annotation edited in place (one modification value or multiplier, after it has already been compared
+    #     once) is a different peptide, and equals what its own text and its own field dictionary rebuild
+    e = a.copy()
+    pool = []
+    for lst in (e.labile_mods, e.unknown_mods, e.nterm_mods, e.cterm_mods):
+        pool += list(lst or [])
+    for lst in (e.internal_mods or {}).values():
+        pool += list(lst)
+    for iv in (e.intervals or []):
+        pool += list(iv.mods or [])
+    if pool and (e == a):
+        m = rng.choice(pool)
+        if rng.random() < 0.5:
+            m.mult = m.mult + 1
+            how = 'multiplier'
+        else:
+            m.val = (m.val + 1) if isinstance(m.val, (int, float)) else ('Methyl' if m.val != 'Methyl' else 'Oxidation')
+            how = 'value'
+        cnt('in-place-edit')
+        ctx.decided()
+        try:
+            es = e.serialize()
+            fresh = pt.parse(es)
+            rebuilt = pt.create_annotation(**e.dict())
+            if (e == a) or (a == e):
+                ctx.violation('eq-insensitive-to-in-place-edit', {'edited': how, 'a': s, 'edited_text': es})
+            elif not (fresh == e and e == fresh):
+                ctx.violation('edited-annotation-differs-from-parse-of-its-own-text', {'edited': how, 'edited_text': es})
+            elif not (rebuilt == e and e == rebuilt):
+                ctx.violation('edited-annotation-differs-from-its-own-field-dictionary', {'edited': how,
+                                                                                         'edited_text': es})
+        except Exception as ex:
+            ctx.violation('in-place-edit-raises', {'canonical': s, 'exception': f'{type(ex).__name__}: {ex}'[:200]})
+        ctx.sig(('in-place-edit', how, p.features()), True)
     # 4. equality laws
     cnt('eq-reflexive')
     ctx.decided()
@@ -264,8 +312,16 @@ def run(ctx):
     pt = install(ctx, st)
     cfg = gp.GenCfg(min_len=1, max_len=14, letters=LETTERS, weights=dict(gp.W_ALL), p_res=0.35, max_per_site=3,
                     p_interval=0.3, p_charge=0.3, p_isotope=0.2, p_static=0.25, p_labile=0.25, p_unknown=0.2, p_mult=0.15)
+    import copy as _copy
     for _ in range(ctx.n(10000, 400000)):
-        run_case(ctx, st, pt, gp.gen_pep(ctx.rng, cfg))
+        p = gp.gen_pep(ctx.rng, cfg)
+        if ctx.rng.random() < 0.2:
+            # a position that carries the same modification twice next to a different one ([A][B][A])
+            many = [lst for _lab, lst in mod_lists(p) if len({x.pair() for x in lst}) >= 2]
+            if many:
+                lst = ctx.rng.choice(many)
+                lst.append(_copy.deepcopy(ctx.rng.choice(lst)))
+        run_case(ctx, st, pt, p)
     ctx.extra['eq_executions'] = st.eq_calls
     for k, v in st.counts.items():
         ctx.extra['clause_' + k] = v
